@@ -300,11 +300,14 @@ def rule_hashwrite(F, R):
         R.check(ok, rule, norm(h2["path"]), "write() hashes the whole buffer and reports its full length", where=h2["span"])
     hf = X.hir("wirefilter_get_filter_hash")
     if hf:
+        import sem
+        Sh = sem.Sem(X, hf, inline=False)
         tw = [c for c in exprs(hf["body"], "Call") if norm(c.get("callee", "")) == "serde_json::ser::to_writer"]
-        ok = len(tw) == 1 and any(norm(c.get("callee", "")) == "HasherWrite" for c in exprs(tw[0]["args"][0], "Call")) and \
+        w_arg = Sh.resolve(tw[0]["args"][0], Sh.root).node if tw else {}
+        ok = len(tw) == 1 and any(norm(c.get("callee", "")) == "HasherWrite" for c in exprs(w_arg, "Call")) and \
             any(is_param(p, hf, 0) for p in exprs(tw[0]["args"][1], "Path"))
         R.check(ok, rule, "wirefilter_get_filter_hash", "the hash is computed over the filter's JSON serialization", where=hf["span"])
-        wrapped = {local_name(p) for c in exprs(tw[0]["args"][0], "Call") if norm(c.get("callee", "")) == "HasherWrite" for p in exprs(c, "Path")} if tw else set()
+        wrapped = {local_name(p) for c in exprs(w_arg, "Call") if norm(c.get("callee", "")) == "HasherWrite" for p in exprs(c, "Path")} if tw else set()
         wrapped.discard(None)
         fin = [c for c in exprs(hf["body"], "MethodCall") if c["m"] == "finish" and local_name(c["recv"]) in wrapped]
         R.check(len(fin) == 1, rule, "wirefilter_get_filter_hash", "returns the hasher's digest", where=hf["span"])
